@@ -117,6 +117,9 @@ func unquoteString(b []byte) ([]byte, int) {
 			return b, len(b)
 		}
 		if b[i] == '\r' || b[i] == '\n' {
+			if i == 0 {
+				return nil, 0
+			}
 			return b[0:i], i
 		}
 		if b[i] == '"' {
@@ -141,8 +144,16 @@ func unquoteString(b []byte) ([]byte, int) {
 		if err != nil {
 			break
 		}
-		res = append(res, string(ch)...)
+		if ch == utf8.RuneError && len(str)-len(tail) == 1 {
+			// an invalid UTF-8 byte is kept as it is
+			res = append(res, str[0])
+		} else {
+			res = append(res, string(ch)...)
+		}
 		str = tail
+	}
+	if len(b) == len(str) {
+		return nil, 0
 	}
 	return res, len(b) - len(str)
 }
